@@ -237,6 +237,7 @@ pub struct World {
     pub cur_origin: Origin,
     pub fault_hit_in_tx: bool,
     pub zero_ibc_ok: bool,
+    pub zero_tf_ok: bool,
 }
 
 #[derive(Clone, Debug)]
@@ -308,6 +309,7 @@ impl World {
             cur_origin: Origin::Other,
             fault_hit_in_tx: false,
             zero_ibc_ok: false,
+            zero_tf_ok: false,
         }
     }
 
@@ -779,7 +781,7 @@ impl World {
                 if self.st.tf_denoms.get(&denom).map(|a| a.as_str()) != Some(contract) {
                     return err("tf: not admin of denom");
                 }
-                if amt == 0 {
+                if amt == 0 && !self.zero_tf_ok {
                     return err("tf: zero amount");
                 }
                 let mut to = m.str(3);
